@@ -344,10 +344,16 @@ func (c06) Exec(sci interface{}, env *Env) *Violation {
 		if req != nil && req.Type != z80.NMIType && before.IFF1 {
 			switch before.IM {
 			case 0:
+				// a supplied RET whose stack bytes lie at PC..PC+len-1: the statement does not say whether
+				// they come from memory or from the device (writes into that range must reach memory:
+				// repaired defect D6)
 				l := uint16(len(req.Data))
-				if (before.SP-1)-before.PC < l || (before.SP-2)-before.PC < l || before.SP-before.PC < l || (before.SP+1)-before.PC < l {
+				if l > 0 && req.Data[0] == 0xc9 && (before.SP-before.PC < l || (before.SP+1)-before.PC < l) {
 					env.Class("stop/sp-in-overlay")
 					return nil
+				}
+				if (before.SP-1)-before.PC < l || (before.SP-2)-before.PC < l {
+					env.Fire("mode0-push-lands-on-interrupted-pc")
 				}
 			case 2:
 				if len(req.Data) == 0 || req.Data[0]&1 == 1 {
@@ -377,7 +383,10 @@ func (c06) Exec(sci interface{}, env *Env) *Violation {
 		reqCopy := world.CloneRequest(req)
 		si := m.StepNoBoundary()
 		env.Steps++
-		if req != nil && cpu.Interrupt != nil && !world.SameRequest(req, reqCopy) {
+		if m.Mutated != "" {
+			return viol("request-value-modified", "%s; step %d", m.Mutated, step)
+		}
+		if req != nil && !si.Accepted && !world.SameRequest(req, reqCopy) {
 			// only for a request that was NOT consumed ("a refused request changes nothing"); what the library
 			// does to a value it has consumed shows up when the host presents that value again (Machine.Mutated)
 			return viol("request-value-modified", "the Step wrote into the refused request it was given: %s before, %s after", world.FmtRequest(reqCopy), world.FmtRequest(req))
@@ -398,7 +407,7 @@ func (c06) Exec(sci interface{}, env *Env) *Violation {
 			env.Class("stop/unknown-opcode")
 			return nil
 		}
-		consumed := req != nil && cpu.Interrupt == nil
+		consumed := si.Accepted // (decided from the bus history when a device wrote the slot during the Step)
 		var match []*model.IntState
 		firstDiff, bestN := "", 0
 		for _, c := range cands {
@@ -436,6 +445,16 @@ func (c06) Exec(sci interface{}, env *Env) *Violation {
 
 		// the slot after the Step
 		switch {
+		case req != nil && c.Consumed && si.PostedDuring:
+			// a request a device posted in the middle of the acceptance: kept for the next Step or dropped
+			// with the served one - no statement says which
+			if cpu.Interrupt != nil && (len(m.Presented) == nPres || cpu.Interrupt != m.Presented[len(m.Presented)-1]) {
+				return viol("slot-untouched", "slot after an acceptance during which a device posted a request = %s: neither empty nor that request; %s", world.FmtRequest(cpu.Interrupt), ctx())
+			}
+		case req != nil && c.Consumed:
+			if cpu.Interrupt != nil {
+				return viol("slot-untouched", "slot after an acceptance = %s although no device posted anything during the Step; %s", world.FmtRequest(cpu.Interrupt), ctx())
+			}
 		case req != nil && !c.Consumed:
 			if len(m.Presented) > nPres {
 				// the controller only presents into an EMPTY slot: the library emptied the slot of a refused
@@ -522,6 +541,16 @@ func (c06) Exec(sci interface{}, env *Env) *Violation {
 			}
 			depth++
 			env.Fire("accept/" + c.Last.String())
+			if c.Last == model.KAcceptIM0 {
+				switch d := reqCopy.Data; {
+				case d[0] == 0xc9:
+					env.Fire("mode0-supplied-RET")
+				case d[0] == 0xc3:
+					env.Fire("mode0-supplied-JP")
+				case d[0]&0xc7 == 0xc7 && len(d) > 1, d[0] == 0xcd && len(d) > 3:
+					env.Fire("mode0-data-with-padding")
+				}
+			}
 		}
 
 		// refusal (or executing the instruction after EI first): identical to
